@@ -341,6 +341,28 @@ pub fn explore_cfg(c: &Cfg, data: &[u8], sizes: &dyn Fn(usize) -> Vec<usize>, ag
     }
 }
 
+/// Cut list of the real chunker under an explicit answer script.
+pub fn cuts_with_script(c: &Cfg, data: &[u8], script: &[Ans]) -> Result<Vec<usize>, String> {
+    let fc = bitar::chunker::FilterConfig {
+        filter_bits: bitar::chunker::FilterBits::from_bits(c.bits),
+        min_chunk_size: c.min,
+        max_chunk_size: c.max,
+        window_size: c.w,
+    };
+    let out = match c.algo {
+        Algo::Fixed => run_script(&|| FixedSizeChunker::new(c.max), data, script),
+        Algo::Roll => run_script(&|| RollingHashChunker::new(RollSum::new(c.w), &fc), data, script),
+        Algo::Buz => run_script(&|| RollingHashChunker::new(BuzHash::new(c.w), &fc), data, script),
+    };
+    if let Some(e) = out.error {
+        return Err(e);
+    }
+    if !out.state.finished {
+        return Err("stream did not finish".into());
+    }
+    Ok(out.chunks.iter().map(|(o, b)| *o as usize + b.len()).collect())
+}
+
 /// Cut list of the real chunker with the input delivered `read_size` bytes per read (Pending before every 3rd read).
 pub fn cuts_with_reads(c: &Cfg, data: &[u8], read_size: usize) -> Result<Vec<usize>, String> {
     let mut script = vec![];
@@ -556,6 +578,52 @@ pub fn run(rep: &mut Report) {
     });
     rep.agg.merge(b);
 
+    // ---- leg B2: the same question without state merging (does not rely on hook H2's fingerprint
+    // covering fields a change may add): every composition of n into read sizes, directly
+    {
+        let n2 = if thorough { 8 } else { 6 };
+        let b2 = par_shards(bcfgs.len(), threads, |ci| {
+            let c = &bcfgs_ref[ci];
+            let mut agg = Agg::default();
+            let bc = c.to_bitar();
+            for n in 1..=n2 {
+                for idx in 0..count_strings(balpha_ref, n) {
+                    let data = nth_string(balpha_ref, n, idx);
+                    let expect = match real_cuts(&bc, &data) {
+                        Ok(e) => e,
+                        Err(_) => continue,
+                    };
+                    // compositions of n <-> subsets of the n-1 inner positions
+                    for m in 0u32..(1 << (n - 1)) {
+                        let mut script = vec![];
+                        let mut run = 1usize;
+                        for pos in 0..n - 1 {
+                            if m >> pos & 1 == 1 {
+                                script.push(Ans::Ready(run));
+                                if (m + pos as u32) % 3 == 0 {
+                                    script.push(Ans::Pending);
+                                }
+                                run = 1;
+                            } else {
+                                run += 1;
+                            }
+                        }
+                        script.push(Ans::Ready(run));
+                        script.push(Ans::Eof);
+                        agg.add("unmerged_fragmentations", 1);
+                        let got = cuts_with_script(c, &data, &script);
+                        if got.as_ref().ok() != Some(&expect) {
+                            agg.viol("read-dependent-chunking", || json!({"cfg": c.json(), "data": hex(&data), "script": format!("{:?}", script), "got": format!("{:?}", got), "single_read": expect, "leg": "unmerged"}));
+                            break;
+                        }
+                    }
+                }
+            }
+            agg
+        });
+        rep.agg.merge(b2);
+    }
+
     // large input (crossing the 1 MiB refill buffer) under selected read sizes
     {
         let n = 3 * 1024 * 1024 + 700 * 1024 + 300;
@@ -592,11 +660,11 @@ pub fn run(rep: &mut Report) {
     rep.set("transitions", json!(transitions));
     rep.set("traces_validated_against_impl", json!(transitions));
     rep.set("exhaustive", json!(rep.agg.get("bfs_capped_inputs") == 0));
-    rep.set("evaluations", json!(rep.agg.get("rule_cases") + transitions));
+    rep.set("evaluations", json!(rep.agg.get("rule_cases") + transitions + rep.agg.get("unmerged_fragmentations")));
     rep.set("distinct_nontrivial", json!(rep.agg.distinct_count("cutlists")));
     rep.set(
         "rule",
-        json!("leg A: every string over the alphabet up to rule_max_len plus a boundary family and MiB-sized structured inputs, for every configuration of the grid, real single-read chunking == reference chunker; leg B: explicit-state BFS over reader answers on the real StreamingChunker (state = consumed bytes, fingerprint of complete chunker state, chunks emitted, eof flags), every transition is an execution of the real code; distinct_nontrivial = number of distinct cut lists observed"),
+        json!("leg A: every string over the alphabet up to rule_max_len plus a boundary family and MiB-sized structured inputs, for every configuration of the grid, real single-read chunking == reference chunker; leg B: explicit-state BFS over reader answers on the real StreamingChunker (state = consumed bytes, fingerprint of complete chunker state, chunks emitted, eof flags), every transition is an execution of the real code; leg B2: every composition of n into read sizes (all 2^(n-1) fragmentations, Pending sprinkled in) for every string up to length 6/8, compared directly without state merging; distinct_nontrivial = number of distinct cut lists observed"),
     );
     rep.assume("state fingerprint (hook H2) covers every field of StreamingChunker except the reader; equal fingerprint + equal consumed count => equal futures");
     rep.assume("data values outside the alphabets and lengths above the bounds are not covered; large inputs are single structured inputs");
